@@ -152,3 +152,17 @@ mod tests {
         assert_eq!(err_name_from_debug("what"), "other");
     }
 }
+
+
+static START: std::sync::OnceLock<std::time::Instant> = std::sync::OnceLock::new();
+
+/// Nanoseconds since the first call (process start for all practical purposes).
+pub fn now_ns() -> u128 {
+    START.get_or_init(std::time::Instant::now).elapsed().as_nanos()
+}
+
+/// `FJV_TIMING=1`: asynchronous result lines carry call/return timestamps.
+pub fn timing_enabled() -> bool {
+    static ON: std::sync::OnceLock<bool> = std::sync::OnceLock::new();
+    *ON.get_or_init(|| std::env::var_os("FJV_TIMING").is_some())
+}
